@@ -84,9 +84,66 @@ Ltac inv_step H := unfold step in H;
          | (if ?x then _ else _) = Some _ => destruct x eqn:?; try discriminate
          end; inversion H; subst; clear H.
 
-Theorem step_inv s e s' : Inv s -> step s e = Some s' -> Inv s'.
+(* a semaphore whose UNREGISTER has been sent no longer exists -- true because the finalizer, as it reads in the source,
+   unlinks first and unregisters second (the order is the generated fact semlock_cleanup_unlinks_then_unregisters) *)
+Definition Inv2 (s : state) : Prop :=
+  forall j y, nth_error (sems s) j = Some y -> s_stage y = Unregistered -> s_exists y = false.
+Lemma Inv2_init : Inv2 init.
+Proof. intros [|j] y H; discriminate. Qed.
+Lemma inv2_map (l : list sem) (c : sem -> bool) :
+  (forall j y, nth_error l j = Some y -> s_stage y = Unregistered -> s_exists y = false) ->
+  forall j y, nth_error (map (fun x => if c x then mks false (s_owner x) (s_stage x) (s_tracker x) else x) l) j = Some y ->
+              s_stage y = Unregistered -> s_exists y = false.
 Proof.
-  intros [Is Ih Ie It] H. destruct e.
+  intros H j y Hj Hs. rewrite nth_error_map in Hj. destruct (nth_error l j) as [y0|] eqn:Ej; [|discriminate].
+  cbn in Hj. inversion Hj; subst y; clear Hj. destruct (c y0); cbn in *; [reflexivity | eapply H; eauto].
+Qed.
+Lemma inv2_upd (l : list sem) i (v : sem) :
+  (forall j y, nth_error l j = Some y -> s_stage y = Unregistered -> s_exists y = false) ->
+  (s_stage v = Unregistered -> s_exists v = false) ->
+  forall j y, nth_error (upd l i (fun _ => v)) j = Some y -> s_stage y = Unregistered -> s_exists y = false.
+Proof.
+  intros H Hv j y Hj Hs. destruct (Nat.eq_dec i j) as [->|Hne].
+  - destruct (nth_error l j) as [y0|] eqn:Ej.
+    + rewrite (nth_upd_same _ _ _ _ Ej) in Hj. inversion Hj; subst. auto.
+    + assert (nth_error (upd l j (fun _ => v)) j = None) by (apply nth_error_None; rewrite upd_length; apply nth_error_None; exact Ej).
+      congruence.
+  - rewrite nth_upd_other in Hj by assumption. eapply H; eauto.
+Qed.
+Theorem step_inv2 s e s' : Inv2 s -> step s e = Some s' -> Inv2 s'.
+Proof.
+  intros I H. unfold Inv2 in *. destruct e; unfold step in H.
+  - destruct (nth_error (procs s) p) as [[[|] h]|]; try discriminate. inversion H; subst; exact I.
+  - destruct (nth_error (procs s) p) as [[[|] h]|]; try discriminate. inversion H; subst; exact I.
+  - destruct (nth_error (procs s) p) as [[[|] h]|]; try discriminate. inversion H; subst; cbn [sems]. apply inv2_map, I.
+  - destruct (tr_alive s t); [|discriminate]. inversion H; subst; exact I.
+  - destruct (nth_error (trackers s) t) as [x0|]; [|discriminate]. destruct (t_alive x0); [|discriminate].
+    destruct sig_safe; [|inversion H; subst; exact I].
+    destruct (t_sig x0); inversion H; subst; exact I.
+  - destruct (nth_error (trackers s) t) as [x0|]; [|discriminate]. destruct (t_alive x0); [|discriminate].
+    destruct (t_sig x0); inversion H; subst; exact I.
+  - destruct (nth_error (procs s) p) as [[[|] h]|]; try discriminate. destruct (tr_alive s h); inversion H; subst; exact I.
+  - destruct (nth_error (trackers s) t) as [x0|]; [|discriminate].
+    destruct (t_alive x0 && Nat.eqb (writers s t) 0); [|discriminate]. inversion H; subst; cbn [sems]. apply inv2_map, I.
+  - destruct (nth_error (procs s) p) as [[[|] h]|]; try discriminate. inversion H; subst; cbn [sems].
+    intros j y Hj Hs. apply nth_app_inv in Hj. destruct Hj as [Hj|[_ ->]]; [eapply I; eauto | discriminate].
+  - destruct (nth_error (sems s) i) as [[ex o [| | |] t]|]; try discriminate.
+    destruct (nth_error (procs s) o) as [[[|] h]|]; try discriminate. inversion H; subst; cbn [sems].
+    apply inv2_upd; [exact I | discriminate].
+  - destruct (nth_error (sems s) i) as [[ex o [| | |] t]|]; try discriminate.
+    destruct (nth_error (procs s) o) as [[[|] h]|]; try discriminate. inversion H; subst; cbn [sems].
+    apply inv2_upd; [exact I | discriminate].
+  - destruct (nth_error (sems s) i) as [[[|] o [| | |] t]|]; try discriminate.
+    destruct (nth_error (procs s) o) as [[[|] h]|]; try discriminate. inversion H; subst; cbn [sems].
+    apply inv2_upd; [exact I | cbn; discriminate].
+  - destruct (nth_error (sems s) i) as [[[|] o [| | |] t]|]; try discriminate;
+      destruct (nth_error (procs s) o) as [[[|] h]|]; try discriminate; cbn in H; try discriminate;
+      inversion H; subst; cbn [sems]; (apply inv2_upd; [exact I | reflexivity]).
+Qed.
+
+Theorem step_inv s e s' : Inv s -> Inv2 s -> step s e = Some s' -> Inv s'.
+Proof.
+  intros [Is Ih Ie It] I2 H. destruct e.
   - (* Spawn *) unfold step in H. destruct (nth_error (procs s) p) as [[[|] handle0]|] eqn:Heqo; try discriminate.
     inversion H; subst; clear H. constructor; cbn [procs trackers sems]; unfold tracker_of in *; cbn [trackers]; auto.
     + intros t x i q Ht Hs Hq Ha. apply nth_app_inv in Hq. destruct Hq as [Hq|[_ ->]]; [eapply Is; eauto|].
@@ -167,16 +224,17 @@ Proof.
     + intros j y x Hj Hex Hst Ht. rewrite nth_error_map in Hj. destruct (nth_error (sems s) j) as [y0|] eqn:Ej; [|discriminate].
       cbn in Hj. inversion Hj; subst y. clear Hj.
       destruct (Nat.eqb_spec (s_tracker y0) t) as [E|Hne]; cbn [andb] in *.
-      * destruct (s_stage y0) eqn:Es; cbn in *; try discriminate. congruence.
+      * destruct (s_stage y0) eqn:Es; cbn in *; try discriminate; [congruence|].
+        pose proof (I2 j y0 Ej Es). congruence.
       * cbn in *. rewrite nth_upd_other in Ht by congruence. eapply Ie; eauto.
     + intros j y Hj. rewrite nth_error_map in Hj. destruct (nth_error (sems s) j) as [y0|] eqn:Ej; [|discriminate].
       cbn in Hj. inversion Hj; subst y.
-      destruct (Nat.eqb (s_tracker y0) t && match s_stage y0 with Created => false | _ => true end); cbn; eapply It; eauto.
+      destruct (Nat.eqb (s_tracker y0) t && match s_stage y0 with Created | Unregistered => false | _ => true end); cbn; eapply It; eauto.
   - (* SemCreate *) unfold step in H. destruct (nth_error (procs s) p) as [[[|] handle0]|] eqn:Heqo; try discriminate.
     inversion H; subst; clear H. constructor; cbn [procs trackers sems]; unfold tracker_of in *; auto.
     + intros j y x Hj Hex Hst Ht. apply nth_app_inv in Hj. destruct Hj as [Hj|[_ ->]]; [eapply Ie; eauto|]. cbn in Hst. congruence.
     + intros j y Hj. apply nth_app_inv in Hj. destruct Hj as [Hj|[_ ->]]; [eauto|]. cbn. apply (Ih p _ Heqo).
-  - (* SemRegister *) unfold step in H. destruct (nth_error (sems s) i) as [[ex s_owner0 [| |] tr0]|] eqn:Heqo; try discriminate.
+  - (* SemRegister *) unfold step in H. destruct (nth_error (sems s) i) as [[ex s_owner0 [| | |] tr0]|] eqn:Heqo; try discriminate.
     destruct (nth_error (procs s) s_owner0) as [[[|] handle0]|] eqn:Heqo0; try discriminate.
     inversion H; subst; clear H. constructor; cbn [procs trackers sems]; unfold tracker_of in *; auto.
     + intros j y x Hj Hex Hst Ht. destruct (Nat.eq_dec i j) as [->|Hne].
@@ -187,7 +245,7 @@ Proof.
     + intros j y Hj. destruct (Nat.eq_dec i j) as [->|Hne].
       * rewrite (nth_upd_same _ _ _ _ Heqo) in Hj. inversion Hj; subst y. cbn. apply (Ih s_owner0 _ Heqo0).
       * rewrite nth_upd_other in Hj by assumption. eauto.
-  - (* SemGuard *) unfold step in H. destruct (nth_error (sems s) i) as [[ex s_owner0 [| |] tr0]|] eqn:Heqo; try discriminate.
+  - (* SemGuard *) unfold step in H. destruct (nth_error (sems s) i) as [[ex s_owner0 [| | |] tr0]|] eqn:Heqo; try discriminate.
     destruct (nth_error (procs s) s_owner0) as [[[|] handle0]|] eqn:Heqo0; try discriminate.
     inversion H; subst; clear H. constructor; cbn [procs trackers sems]; unfold tracker_of in *; auto.
     + intros j y x Hj Hex Hst Ht. destruct (Nat.eq_dec i j) as [->|Hne].
@@ -197,7 +255,7 @@ Proof.
     + intros j y Hj. destruct (Nat.eq_dec i j) as [->|Hne].
       * rewrite (nth_upd_same _ _ _ _ Heqo) in Hj. inversion Hj; subst y. cbn. apply (It j _ Heqo).
       * rewrite nth_upd_other in Hj by assumption. eauto.
-  - (* SemCollect *) unfold step in H. destruct (nth_error (sems s) i) as [[[|] s_owner0 [| |] tr0]|] eqn:Heqo; try discriminate.
+  - (* SemCollect *) unfold step in H. destruct (nth_error (sems s) i) as [[[|] s_owner0 [| | |] tr0]|] eqn:Heqo; try discriminate.
     destruct (nth_error (procs s) s_owner0) as [[[|] handle0]|] eqn:Heqo0; try discriminate.
     inversion H; subst; clear H. constructor; cbn [procs trackers sems]; unfold tracker_of in *; auto.
     + intros j y x Hj Hex Hst Ht. destruct (Nat.eq_dec i j) as [->|Hne].
@@ -206,9 +264,24 @@ Proof.
     + intros j y Hj. destruct (Nat.eq_dec i j) as [->|Hne].
       * rewrite (nth_upd_same _ _ _ _ Heqo) in Hj. inversion Hj; subst y. cbn. apply (It j _ Heqo).
       * rewrite nth_upd_other in Hj by assumption. eauto.
+  - (* SemForget *) unfold step in H.
+    destruct (nth_error (sems s) i) as [[[|] s_owner0 [| | |] tr0]|] eqn:Heqo; try discriminate;
+      destruct (nth_error (procs s) s_owner0) as [[[|] handle0]|] eqn:Heqo0; try discriminate; cbn in H; try discriminate;
+      inversion H; subst; clear H; constructor; cbn [procs trackers sems]; unfold tracker_of in *; auto.
+    + intros j y x Hj Hex Hst Ht. destruct (Nat.eq_dec i j) as [->|Hne].
+      * rewrite (nth_upd_same _ _ _ _ Heqo) in Hj. inversion Hj; subst y. cbn in *. discriminate.
+      * rewrite nth_upd_other in Hj by assumption. eapply Ie; eauto.
+    + intros j y Hj. destruct (Nat.eq_dec i j) as [->|Hne].
+      * rewrite (nth_upd_same _ _ _ _ Heqo) in Hj. inversion Hj; subst y. cbn. apply (It j _ Heqo).
+      * rewrite nth_upd_other in Hj by assumption. eauto.
+Qed.
+Theorem reachable_inv12 s : reachable s -> Inv s /\ Inv2 s.
+Proof.
+  induction 1 as [|s e s' Hr [I1 I2] Hs]; [split; [apply Inv_init | apply Inv2_init]|].
+  split; [eapply step_inv; eauto | eapply step_inv2; eauto].
 Qed.
 Theorem reachable_inv s : reachable s -> Inv s.
-Proof. induction 1; [apply Inv_init|eapply step_inv; eauto]. Qed.
+Proof. intros H. apply reachable_inv12, H. Qed.
 
 (* ---- one tracker for the whole tree, as long as no tracker is killed ---- *)
 Definition no_tracker_kill (es : list ev) : bool :=
@@ -263,12 +336,14 @@ Proof.
     assert (t = 0). { assert (t < 1) by (rewrite <- Hl; apply nth_error_Some; congruence). lia. } subst t.
     apply (writers_zero s 0 i q Ew Hq Hal). apply (Hh i q Hq).
   - destruct (nth_error (procs s) p) as [[[|] h]|] eqn:Ep; try discriminate. inversion H; subst. split; auto.
-  - destruct (nth_error (sems s) i) as [[ex o [| |] tr0]|]; try discriminate.
+  - destruct (nth_error (sems s) i) as [[ex o [| | |] tr0]|]; try discriminate.
     destruct (nth_error (procs s) o) as [[[|] h]|]; try discriminate. inversion H; subst. split; auto.
-  - destruct (nth_error (sems s) i) as [[ex o [| |] tr0]|]; try discriminate.
+  - destruct (nth_error (sems s) i) as [[ex o [| | |] tr0]|]; try discriminate.
     destruct (nth_error (procs s) o) as [[[|] h]|]; try discriminate. inversion H; subst. split; auto.
-  - destruct (nth_error (sems s) i) as [[[|] o [| |] tr0]|]; try discriminate.
+  - destruct (nth_error (sems s) i) as [[[|] o [| | |] tr0]|]; try discriminate.
     destruct (nth_error (procs s) o) as [[[|] h]|]; try discriminate. inversion H; subst. split; auto.
+  - destruct (nth_error (sems s) i) as [[[|] o [| | |] tr0]|]; try discriminate;
+      destruct (nth_error (procs s) o) as [[[|] h]|]; try discriminate; cbn in H; try discriminate; inversion H; subst; split; auto.
 Qed.
 Theorem single_tracker es : forall s s', single s -> no_tracker_kill es = true -> run s es = Some s' -> single s'.
 Proof.
